@@ -306,7 +306,7 @@ type c14World struct {
 	wmu     sync.Mutex
 	wacks   map[uint64][]int64 // shard id -> acknowledged timestamps
 	werrs   map[uint64]int
-	wpanics []string
+	wpanics map[uint64]string // shard id -> panic of its concurrent writer
 	wseq    int64
 }
 
@@ -561,6 +561,7 @@ const c14WriterN = 6
 func (w *c14World) startWriters() {
 	w.wacks = map[uint64][]int64{}
 	w.werrs = map[uint64]int{}
+	w.wpanics = map[uint64]string{}
 	for _, g := range w.groups {
 		if !g.Loaded || g.Gone || w.dbpt().Shard(g.ShardID) == nil {
 			continue
@@ -574,7 +575,7 @@ func (w *c14World) startWriters() {
 			defer func() {
 				if p := recover(); p != nil {
 					w.wmu.Lock()
-					w.wpanics = append(w.wpanics, fmt.Sprintf("writer of shard %d: %v\n%s", sid, p, debug.Stack()))
+					w.wpanics[sid] = fmt.Sprintf("writer of shard %d: %v\n%s", sid, p, debug.Stack())
 					w.wmu.Unlock()
 				}
 			}()
@@ -732,10 +733,6 @@ func (w *c14World) retentionRun(withWriters bool, rep *kit.Report) {
 		w.setFail("panic_in_retention_run", panicked)
 		return
 	}
-	if len(w.wpanics) > 0 {
-		w.setFail("panic_writing_during_retention_run", strings.Join(w.wpanics, "\n"))
-		return
-	}
 	tRun := before
 	if w.rec.called {
 		tRun = w.rec.expiredAt
@@ -765,6 +762,24 @@ func (w *c14World) retentionRun(withWriters bool, rep *kit.Report) {
 		}
 	}
 	w.observe(true, inS, tRun, dRun, rep)
+	// The deterministic part of the verdict comes first; what happened to the concurrent writers after it.
+	// A writer that crashed inside a shard the run was deleting is counted, not judged: the statement is
+	// silent about writes into expired data (and the symptom depends on the interleaving). A crash while
+	// writing a shard that survives the run is a loss of service for unexpired data.
+	if withWriters && w.fail == nil {
+		for _, g := range w.groups {
+			msg, ok := w.wpanics[g.ShardID]
+			if !ok {
+				continue
+			}
+			if g.Doomed || g.Gone || inS[g] {
+				rep.Count("hw_writer_panics_in_shard_being_deleted", 1)
+				continue
+			}
+			w.setFail("panic_writing_unexpired_shard_during_retention_run", msg)
+			return
+		}
+	}
 	// acknowledged concurrent writes into groups that survived the run are points of the model
 	if withWriters && w.fail == nil {
 		n := 0
@@ -777,8 +792,7 @@ func (w *c14World) retentionRun(withWriters bool, rep *kit.Report) {
 				g.Points[ts] = true
 			}
 			if k := w.werrs[g.ShardID]; k > 0 {
-				w.setFail("write_refused_on_unexpired_shard_during_retention_run", fmt.Sprintf("%s: %d concurrent writes failed; %s", g.name(w), k, w.lastRun))
-				return
+				rep.Count("hw_write_errors_on_surviving_shard", int64(k)) // not acknowledged, so not a point; the statement is silent
 			}
 			if sh := w.dbpt().Shard(g.ShardID); sh != nil {
 				c14IndexBarrier(sh)
@@ -874,7 +888,8 @@ func (w *c14World) observe(inRun bool, inS map[*c14Group]bool, tRun time.Time, d
 			continue
 		}
 		p := w.parts(g)
-		intact := p.CatLive && (!g.Loaded || (p.Eng && p.Data))
+		// the index of a shard is part of its data (no index, no query): losing it is losing the shard
+		intact := p.CatLive && (!g.Loaded || (p.Eng && p.Data && p.Index && p.IdxCatLive))
 		anything := p.CatPresent || (g.Loaded && (p.Eng || p.Data || p.Wal))
 		if !intact && !g.Doomed {
 			if inRun && inS[g] {
@@ -898,11 +913,6 @@ func (w *c14World) observe(inRun bool, inS map[*c14Group]bool, tRun time.Time, d
 		}
 		// alive: every acknowledged point must be readable, through the shard's index
 		if g.Loaded {
-			if !p.Index || !p.IdxCatLive {
-				w.setFail("index_of_unexpired_shard_deleted", fmt.Sprintf("%s: index %d (group %d) engine=%v catalogue-live=%v; %s",
-					g.name(w), g.IndexID, g.IGID, p.Index, p.IdxCatLive, w.lastRun))
-				return
-			}
 			if miss, err := w.unreadable(g); err != nil {
 				w.setFail("read_error", fmt.Sprintf("%s: %v", g.name(w), err))
 				return
@@ -929,6 +939,12 @@ func c14Missing(g *c14Group, p c14Parts) string {
 		}
 		if !p.Data {
 			s = append(s, "data directory")
+		}
+		if !p.Index {
+			s = append(s, "index (engine)")
+		}
+		if !p.IdxCatLive {
+			s = append(s, "index group liveness (catalogue)")
 		}
 	}
 	return strings.Join(s, " + ")
@@ -1285,8 +1301,11 @@ func (x *c14Explorer) report(w *c14World, ops []string) {
 		if err != nil {
 			panic(fmt.Sprintf("C14 harness: re-execution of %s failed to start: %v", c.key(), err))
 		}
-		if f2 != nil && f2.Kind == f.Kind {
+		if f2 != nil { // it has to fail every time; with concurrent writers the first symptom may differ
 			same++
+			if f2.Kind != f.Kind {
+				x.rep.Count("recheck_failed_with_other_kind", 1)
+			}
 		}
 	}
 	if same != 5 {
@@ -1384,12 +1403,12 @@ func TestVerifC14(t *testing.T) {
 	log = logger.NewLogger(errno.ModuleStorageEngine).SetZapLogger(zap.NewNop())
 	stat.StoreTaskInstance = stat.NewStoreTaskDuration(false)
 	reportLoadFrequency = 20 * time.Minute // a once-per-second load report of every partition is not part of the property
-	synctest.Test(t, func(t *testing.T) {
-		if pf := kit.Getenv("VERIF_CPUPROF", ""); pf != "" { // development aid
-			if f, err := os.Create(pf); err == nil {
-				_ = pprof.StartCPUProfile(f)
-			}
+	if pf := kit.Getenv("VERIF_CPUPROF", ""); pf != "" { // development aid (started outside the bubble)
+		if f, err := os.Create(pf); err == nil {
+			_ = pprof.StartCPUProfile(f)
 		}
+	}
+	synctest.Test(t, func(t *testing.T) {
 		c14Main(t, rep)
 		pprof.StopCPUProfile()
 		rep.Save()
